@@ -21,12 +21,12 @@ CLAIMED = {
   design_ref="4.5"),
  "C02": dict(
   level_text="Seeded operation histories over a register file of BondList objects (compiled extension as on disk) refined step by step against a dict model of undirected typed bonds; every view (array, set, per-atom and all-atom tables, adjacency and type matrices, graph, membership, equality, counts) is compared after every step. Out-of-range atom indices are injected as faults; every operation carrying an out-of-range scalar index first runs in a one-operation probe child forked from the current state, so process death, silent acceptance and corruption are attributed to the operation and the history continues. Sampling, not proof.",
-  level_note="Trusted: the dict model. Self-bonds and wrong-length masks are outside the generated domain. Two genuine defects in Cython source (cannot be rebuilt here) are listed in known_findings.json and reported as KNOWN-FINDING; any other disagreement is a VIOLATION.",
+  level_note="Trusted: the dict model. Self-bonds and wrong-length masks are outside the generated domain. Four genuine defects in Cython source (cannot be rebuilt here; scalar index below -n, non-contiguous mask, read-only mask, small-dtype index array) are listed in known_findings.json and reported as KNOWN-FINDING; any other disagreement is a VIOLATION.",
   technique="deterministic simulation (seeded histories, out-of-range-index fault injection with fork-probe crash containment, reference model, ddmin replay)",
   design_ref="4.3, 3.3"),
  "C01": dict(
   level_text="Seeded operation histories over a register file of live Atom / AtomArray / AtomArrayStack objects refined after every step, for every register, against a plain list-of-atoms model (annotation values per atom, coordinates per model, per-model boxes, bonds as position pairs): indexing of every kind incl. negative and two-dimensional stack indices, concatenate/+, stack, repeat, from_template, array(), atom/model deletion, element assignment, annotation edits, coord/box/bonds assignment, copy() and in-place writes through one of two holders (a copy must never change), rejected operations. Structural coherence (lengths/depths of annotations, coord, box, bonds) and biotite's own == against a container rebuilt from the model are checked too. Sampling, not proof.",
-  level_note="Trusted: the list-of-atoms model (numpy defines one-axis index validity). String annotation values stay within dtype widths; duplicate index arrays only without bonds; objects derived by anything but copy() may share buffers (alias groups are re-synchronised, not checked).",
+  level_note="Trusted: the list-of-atoms model (numpy defines one-axis index validity). String annotation values stay within dtype widths; duplicate index arrays only without bonds; objects derived by anything but copy() may share buffers (alias groups are re-synchronised, not checked). One genuine defect of the compiled bond list seen through atom-axis indexing (read-only boolean mask on a bonded object) is listed in known_findings.json and reported as KNOWN-FINDING.",
   technique="deterministic simulation (seeded histories over a register file with a second holder, rejected-operation faults, reference model, ddmin replay)",
   design_ref="4.2"),
 }
